@@ -135,5 +135,8 @@ QuietClause(q, stim) ==
     ELSE "ok"
 
 \* ---- epilogue: the same object connects again -----------------------------------------------------
-EpilogueClause(connected) == IF connected = 1 THEN "ok" ELSE "ReconnectFails"
+\* a fault-free open_link on the same object after everything has gone quiet must run to completion: connected, and
+\* (nothing disturbs it, every parameter has a value on the device) fully_connected
+EpilogueClause(connected, fully) == IF connected # 1 THEN "ReconnectFails"
+                                    ELSE IF fully # 1 THEN "ReconnectIncomplete" ELSE "ok"
 =============================================================================
